@@ -1,6 +1,7 @@
 import DarkluaModel.C17.Lemmas
 import DarkluaModel.C17.Whole
 import DarkluaModel.C17.WholeAssert
+import DarkluaModel.C17.WholeAssertU
 /-!
 # C17 — removal and injection rules change exactly what they name: property theorems
 
@@ -813,5 +814,38 @@ example : applyW (.mk [] (some (.ret [.call (.var "assert") none .tuple [.var "a
 example : (RemoveAssertions.apply true (.mk [] (some (.ret [.call (.var "assert") none .tuple [.var "a", .var "b"]])))).1
     = .mk [] (some (.ret [.call (.var "select") none .tuple [.num RemoveAssertions.oneBits, .var "a", .var "b"]])) := by rfl
 end wholeAssertExamples
+
+/-! ## the same in `Sem.HeapU` (stage 4 unified): dropped arguments may allocate
+
+`assert_refines_whole_u` enlarges the fragment of `assert_refines_whole`: in statement position the dropped
+arguments may be function expressions and table constructors of allocation-pure values (`assert(ok, {})`,
+`assert(x, function() end)`) — their tables / closures are garbage of the relation. Extra hypothesis of this
+relation: the oracle is FLAT (external functions return no heap references, `HeapU.OracleFlat`). -/
+
+open WholeAssertU Demo.DropAssert in
+theorem assert_refines_whole_u (b : Block) (hb : NoRefB [.wat "assert"] b)
+    (hsame : (RemoveAssertions.apply true b).1 = WholeAssertU.applyW b)
+    {N : NumOps} (ρ : ExtOracle N) (hρ : Sem.HeapU.OracleFlat ρ) (n : Nat) (externs : List String) :
+    observe (runChunk ρ n b (env0 externs : State N)) = .timeout ∨
+      observe (runChunk ρ n (RemoveAssertions.apply true b).1 (env0 externs))
+        = observe (runChunk ρ n b (env0 externs)) := by
+  rw [hsame]
+  exact WholeAssertU.applyW_refines b hb ρ hρ n externs
+
+section wholeAssertUExamples
+-- `assert(ok, {}, function() end)` / `assert(check(x), { 1, "m" })`: inside the new fragment, outside the old one
+private def usample : Block :=
+  .mk [.callStmt (.call (.var "assert") none .tuple [.var "ok", .table [], .fn (.mk [] false none none [] [] (.mk [] none))]),
+       .callStmt (.call (.var "assert") none .tuple
+         [.call (.var "check") none .tuple [.var "x"], .table [.pos (.num 0), .pos (.str [109])]])] none
+theorem usample_apply : (RemoveAssertions.apply true usample).1
+    = .mk [.doBlock (.mk [] none), .callStmt (.call (.var "check") none .tuple [.var "x"])] none := by rfl
+theorem usample_applyU : WholeAssertU.applyW usample
+    = .mk [.doBlock (.mk [] none), .callStmt (.call (.var "check") none .tuple [.var "x"])] none := by rfl
+example : (RemoveAssertions.apply true usample).1 = WholeAssertU.applyW usample := usample_apply.trans usample_applyU.symm
+example : NoRefB [.wat "assert"] usample := NoRefB.ofBool rfl
+-- the stage-3 fragment leaves these statements alone (dropped arguments are not atoms)
+example : WholeAssert.applyW usample = usample := by rfl
+end wholeAssertUExamples
 
 end DarkluaModel.C17
